@@ -19,6 +19,9 @@ class SwapPartitionHandler(CurrentTokenBaseHandler):
             _, parenthesis = token.tokens
             _, identifier_list, _ = parenthesis.tokens
             identifiers = list(identifier_list.get_identifiers())
+            if len(identifiers) < 4:
+                # not the (staging, min, max, target) form: nothing to extract
+                return
             holder.add_read(
                 SqlParseTable(escape_identifier_name(identifiers[0].normalized))
             )
